@@ -43,6 +43,13 @@ def make_sim(trace, mode, hz=True, dc=None, ic=None, prog=None):
         )
     except Exception as e:  # noqa: BLE001
         raise SutConstructionError(f"{type(e).__name__}: {e} (mode={mode}, dc={dc}, ic={ic})") from e
+    if trace["cfg"].get("probe_before_load"):
+        # the front end queries a new simulation before anything is loaded (syncAll right after creation)
+        try:
+            sim.is_done()
+            sim.has_instructions()
+        except Exception:  # noqa: BLE001
+            pass
     # the assembler is stubbed, but the rest of load_program() is not: reset both memories first
     # (riscv_simulation.py:106-116), then place the instructions as the parser's last step does
     sim.state.memory.reset()
